@@ -100,7 +100,9 @@ class Ctx:
     # ---- TLC
     def tlc(self, module, cfg, what=None, expect_violation=None, count=True, **kw):
         kw.setdefault("workers", self.workers)
+        allow = kw.pop("allow_violation", False)
         res = _tlc.run(module, cfg, self.scratch, **kw)
+        kw["allow_violation"] = allow
         what = what or "%s/%s" % (module, cfg if "\n" not in cfg else "inline")
         rec = {"what": what, "generated": res.generated, "distinct": res.distinct, "diameter": res.diameter,
                "wall_s": round(res.wall, 1), "violated": res.violated}
@@ -120,6 +122,9 @@ class Ctx:
                 raise Machinery("%s: expected violation of %s, got %s" % (what, expect_violation, res.violated))
             self.bug_demos.append({"config": what, "violated": res.violated})
             return res
+        if res.violated is not None and not kw.get("allow_violation"):
+            # a specification that violates its own invariants decides nothing: never pass silently
+            raise Machinery("%s: TLC reports %s violated by the specification itself\n%s" % (what, res.violated, res.out[-2500:]))
         if res.violated is None and res.exit != 0:
             raise Machinery("%s: TLC failed (exit %s)\n%s" % (what, res.exit, res.error_text or res.out[-2000:]))
         shutil.rmtree(getattr(res, "work", ""), ignore_errors=True)
